@@ -4,7 +4,7 @@ import core
 import scen_buffer
 import scen_fifo
 
-PROPS = ['Props/C05.lean', 'Props/C05Buffer.lean']
+PROPS = ['Props/C05.lean', 'Props/C05Buffer.lean', 'Legacy/BufferPinned.lean']
 
 
 def keyfn(case, res, m):
